@@ -290,6 +290,14 @@ func (c *Client) disconnected() bool {
 }
 
 func (c *Client) closeAndDelSession() {
+	if cur := c.broker.getClient(c.info.cid); cur != nil && cur != c {
+		// Superseded by a newer connection with the same client id: the
+		// session, its subscriptions and the broker entry of that id belong
+		// to the new connection now.
+		c.close()
+		return
+	}
+
 	c.broker.sessMgr.delLocal(c.info.cid)
 	if c.session.cleanSession() {
 		c.broker.sessMgr.delDB(c.info.cid)
